@@ -2,7 +2,7 @@
 import os
 import sys
 from pyvc.driver import main, native_bounded, VERIF
-from contracts import probe_native, c11_hostkey, c09_parsers
+from contracts import probe_native, c11_hostkey, c09_parsers, c12_gex
 
 
 def custom_native(ip, runner):
@@ -15,8 +15,8 @@ def custom_native(ip, runner):
 def build(chk, ip, runner):
     chk.design_ref = 'DESIGN.md section 5 C09'
     # the length-prefixed field reader all blob parsers are built on: the only exception is struct.error, exactly when 4 length bytes are missing
-    chk.units = [u for u in c11_hostkey.small_units() if u.contract.qual == 'KexDH.__get_bytes'] + c09_parsers.units()
-    chk.stubs = c09_parsers.stubs() + c09_parsers.callee_contracts()
+    chk.units = [u for u in c11_hostkey.small_units() if u.contract.qual == 'KexDH.__get_bytes'] + c09_parsers.units() + c12_gex.reconnect_units() + c12_gex.send_init_units()
+    chk.stubs = c09_parsers.stubs() + c09_parsers.callee_contracts() + [c for c in c12_gex.reconnect_stubs() if c.qual != 'traceback:format_exc'] + c12_gex.send_init_stubs()
     chk.lemmas = ['val_be_word']
     chk.customs = [custom_native]
     chk.level = 'other'
